@@ -105,6 +105,10 @@ def tlaps_chain(work, rep):
 MIGRATE = {"C01": 150, "C02": 60, "C03": 60, "C04": 40, "C08": 60, "C09": 200, "C12": 40, "C16": 40, "C20": 40}
 
 
+# checks whose first two-key plan also gets the runs over a store left behind by an earlier incarnation of the witness (restored_runs)
+RESTORED = {"C01", "C03", "C04", "C08", "C09"}
+
+
 def make_check(prop, plans_of, rule, nontrivial, level="model_checking", assumptions=(), post=None, pre=None, post_all=None):
     def check(work, tier, seed, replay):
         if replay:
@@ -149,6 +153,10 @@ def make_check(prop, plans_of, rule, nontrivial, level="model_checking", assumpt
                     runs += probe_runs(c, run["steps"], final, "wp", cnt)
             if pl.extra_runs:
                 runs += pl.extra_runs(c, g, rng)
+            if prop in RESTORED and c["NWitKeys"] == 2 and not rep.cov.get("restored_store_runs"):
+                rr = restored_runs(c)
+                runs += rr
+                rep.cov["restored_store_runs"] = len(rr)
             # upgrade over existing data: a sample of the same runs on file-backed SQLite, with the file replaced half-way by one written the way
             # the release under verification writes it (pinned schema and parameter binding) and the witness restarted on it
             nmig = MIGRATE.get(prop, 0) if tier == "quick" else 4 * MIGRATE.get(prop, 0)
@@ -577,6 +585,30 @@ def odd_runs(c, g, rng):
             steps.append({"op": "get", "log": l})
         steps.append({"op": "getlogs"})
         runs.append({"id": "odd%d" % j, "steps": steps})
+    return runs
+
+
+def restored_runs(c, g=None, rng=None):
+    """What an earlier incarnation of this witness left in the store: the same checkpoint cosigned when the clock was ahead, or before the
+    cosignature/v1 key joined the signer set. Honest requests must still be accepted (C08), with a fresh cosignature (C04); refusals must leave
+    those bytes exactly as they are (C03)."""
+    def upd(old, b, n, pf):
+        return {"op": "update", "log": "l1", "req": {"auth": "good", "old": old, "b": b, "n": n, "extra": 0, "stale": 0, "ext": 0, "pf": pf}}
+    E = {"k": "empty"}
+    tofu1 = upd(0, 0, 1, E)
+    get = {"op": "get", "log": "l1"}
+    ms = c["MaxSize"]
+    runs = []
+    for cls in ("future3s", "future1h", "legacyonly"):
+        rs = {"op": "restore", "log": "l1", "cls": cls}
+        refusals = [upd(0, 0, 1, E)]                                       # stale
+        if ms >= 2:
+            refusals += [upd(0, 0, 2, E), upd(3 if ms >= 3 else 2, 0, 2 if ms >= 3 else 1, E),  # stale; old size beyond the checkpoint
+                         upd(1, 0, 2, {"k": "bad", "kind": "flip"})]       # bad proof
+        runs.append({"id": "restored-%s-refresh" % cls, "steps": [tofu1, rs, get, upd(1, 0, 1, E), get] + [{"op": "probe", "log": "l1", "n": n_} for n_ in range(2, ms + 1)]})
+        runs.append({"id": "restored-%s-refusals" % cls, "steps": [tofu1, rs] + refusals + [get] + [{"op": "probe", "log": "l1", "n": n_} for n_ in range(2, ms + 1)]})
+        if ms >= 2:
+            runs.append({"id": "restored-%s-grow" % cls, "steps": [tofu1, rs, {"op": "probe", "log": "l1", "n": 2}, rs, upd(2, 1, 2, E), get, {"op": "probe", "log": "l1", "n": ms}]})
     return runs
 
 
